@@ -202,8 +202,13 @@ def gen_case(r, idx):
     defects.append('notfound')
   # shadowing: the same dotted path in both roots (the first root wins)
   shadow = {}
-  if n_roots == 2 and r.random() < 0.3:
+  if n_roots == 2 and r.random() < 0.6:
     cands = [p for p in order if files[p]['root'] == 0 and p != 'main']
+    # preferably a file that is imported by a file found in the SECOND root (nested lookups keep the root order)
+    nested = [p for p in cands if any(files[q]['root'] == 1 and any(im['file'] == p for im in files[q]['imports'])
+                                       for q in order if q != 'main')]
+    if nested and r.random() < 0.8:
+      cands = nested
     if cands:
       p = r.choice(cands)
       shadow[p] = 'Zz(x) :- x in [999];\n'
